@@ -44,6 +44,15 @@ def state_read_fns(ctx):
     return state_fn(ctx, lambda n: n.endswith("fs::File::open") or n.endswith("File::open"), "state read function")
 
 
+def _record_arg(body, t):
+    """the argument of the state-save call that carries the record: the one typed as the recorded state (not the target it is saved for)"""
+    for a in t["args"]:
+        l = operand_local(a)
+        if l is not None and re.search(r"(TargetEnvState|ResourcesState)", body.locals[l]["ty"]):
+            return a
+    return t["args"][1] if len(t["args"]) > 1 else None
+
+
 def awaited_local_calls(body, names, blocks=None):
     """[(call_bb, term, Await)] of awaited calls to one of `names`"""
     out = []
@@ -514,7 +523,7 @@ def save_on_success(ctx):
         return
     for (cbb, t, a) in aw:
         # the save must be reached on every path on which the snapshot it records is Ok(Some): the snapshot is the awaited value the record derives from
-        rec_at = R.prov.operand_atoms(t["args"][1]) if len(t["args"]) > 1 else set()
+        rec_at = R.prov.operand_atoms(_record_arg(R, t)) if _record_arg(R, t) is not None else set()
         snaps = [x for x in awaits(R) if x.callee in atom_callres(rec_at) and x.callee in ctx.f.bodies and x.producer and x.producer[0] in Rc]
         ok = False
         for sn in snaps:
@@ -838,7 +847,7 @@ def snapshot_order(ctx):
     snaps = input_snapshots()
     ctx.need(snaps, "computation of the input state from the target_input parameter")
     for (cbb, t, a) in sv:
-        rec_at = R.prov.operand_atoms(t["args"][1]) if len(t["args"]) > 1 else set()
+        rec_at = R.prov.operand_atoms(_record_arg(R, t)) if _record_arg(R, t) is not None else set()
         feeding = [(sa2, bb) for (sa2, bb) in snaps if sa2.callee in atom_callres(rec_at)]
         ctx.need(feeding, "the saved record derives from an input-state computation")
         pre = [x for x in feeding if x[1] not in after]
